@@ -37,6 +37,27 @@ pub use crate::chain::channelmonitor::verif_hooks as channelmonitor;
 pub use crate::ln::channelmanager::verif_hooks as channelmanager;
 
 // ---------------------------------------------------------------------------------------------
+// Revocation discipline (commitment numbers, signer call log)
+// ---------------------------------------------------------------------------------------------
+
+pub use crate::ln::channel::verif_hooks_revoke::RevocationView;
+#[cfg(feature = "std")]
+pub use crate::util::test_channel_signer::verif_hooks_signer_log as signer_log;
+
+/// The [`RevocationView`] of the funded channel `channel_id` with `counterparty`, plus the
+/// `channel_keys_id` of its signer, if that channel exists in `node` and is funded.
+#[cfg(feature = "std")]
+pub fn revocation_view(
+	node: &crate::ln::functional_test_utils::TestChannelManager<'_, '_>,
+	counterparty: &bitcoin::secp256k1::PublicKey, channel_id: &crate::ln::types::ChannelId,
+) -> Option<([u8; 32], RevocationView)> {
+	let per_peer_state = node.per_peer_state.read().unwrap();
+	let peer_state = per_peer_state.get(counterparty)?.lock().unwrap();
+	let chan = peer_state.channel_by_id.get(channel_id)?.as_funded()?;
+	Some((chan.context.channel_keys_id, chan.verif_revocation_view()))
+}
+
+// ---------------------------------------------------------------------------------------------
 // Monitor-update pipeline (update ids, in-flight / blocked queues, monitor_pending_* fields)
 // ---------------------------------------------------------------------------------------------
 
@@ -44,3 +65,9 @@ pub use crate::chain::channelmonitor::verif_hooks_monupd::update_step_kinds;
 pub use crate::ln::channel::verif_hooks_monupd::MonUpdView;
 
 pub use crate::ln::channelmanager::verif_hooks_monupd::monupd_view;
+
+// ---------------------------------------------------------------------------------------------
+// Symmetric crypto primitives (HKDF, ChaCha20 call shapes, ChaCha20-Poly1305 stream adapters)
+// ---------------------------------------------------------------------------------------------
+
+pub use crate::crypto::verif_hooks_crypto as crypto;
